@@ -103,6 +103,7 @@ def build_jobs(tier: str):
     # one-figure neighbours, run right after their base in the same process (sim.run_chains): a schedule built for one run must not be
     # served to the next one that shares most, but not all, of its arguments
     chains = []
+    rng_all, rng = rng, random.Random(seed() * 7919 + 1602)      # (a stream of its own for the chains: the older job classes keep theirs)
     names = ['Inflation Rate', 'Production Tax Credit Duration', 'Production Tax Credit Electricity', 'Production Tax Credit Heat',
              'Production Tax Credit Cooling', 'Production Tax Credit Inflation Adjusted', 'Starting Electricity Sale Price',
              'Ending Electricity Sale Price', 'Electricity Escalation Rate Per Year', 'Electricity Escalation Start Year',
@@ -120,6 +121,7 @@ def build_jobs(tier: str):
         for nm, v in gen.neighbours(q, rng, pool[:1] + rng.sample(pool[1:], 3), 3):
             chain.append((f'chain:{tag}~{nm}', gen.to_text(v)))
         chains.append(chain)
+    rng = rng_all
     # ITC / grant / fee pairs
     npair = 40 if tier == 'quick' else 300
     pairs = []
